@@ -72,6 +72,18 @@ def _run_indices(prop: str, base_seed: int, tier: str, indices: List[int], want_
                 res = RunResult()
                 res.add(prop, "clean_arm_failed", "the fault-free arm failed, nothing to compare against: %s" % e)
                 res.digest = "clean_arm_failed"
+            except Exception as e:      # noqa: BLE001
+                # an exception raised INSIDE the tool that reached the harness at a point where the unchanged tree never
+                # raises (constructing a view, a filter, a client ...) is the tool's behaviour, not a harness defect
+                tb = traceback.extract_tb(e.__traceback__)
+                repo_real = os.path.realpath(REPO) + os.sep
+                inner = [f for f in tb if os.path.realpath(f.filename).startswith(repo_real)]
+                if not inner or os.path.realpath(tb[-1].filename).startswith(os.path.realpath(VERIF) + os.sep):
+                    raise
+                res = RunResult()
+                res.add(prop, "unexpected_tool_exception", "%s: %s raised at %s:%d (%s), where the unchanged tree never raises" % (
+                    type(e).__name__, str(e)[:160], os.path.relpath(inner[-1].filename, repo_real), inner[-1].lineno, inner[-1].name), exc=type(e).__name__)
+                res.digest = "unexpected_tool_exception"
             w = res.to_wire()
             w["idx"] = idx
             w["seed"] = derive_seed(base_seed, prop, idx)
